@@ -2,8 +2,12 @@ package c09
 
 import (
 	"fmt"
+	"github.com/uhppoted/uhppote-core/types"
 	"net"
+	"os"
+	"strings"
 	"sync"
+	"syscall"
 	"time"
 
 	"verif/harness/api"
@@ -179,6 +183,134 @@ func runPeerHolds(c scenario, scale int) *rp.Fail {
 	return nil
 }
 
+// no-descriptors: the process has run out of file descriptors (the soft RLIMIT_NOFILE is lowered to what is open right now), so
+// no socket can be created. Every operation - directed UDP, TCP, broadcast, discovery, Listen - returns an error in good time,
+// without a panic; once descriptors are available again the same client works, and nothing has been left behind.
+func runNoDescriptors(c scenario, scale int) *rp.Fail {
+	T := time.Duration(c.TimeoutMs*scale) * time.Millisecond
+	f := farm.New()
+	defer f.Close()
+	answerU := farm.Script(func(r farm.Received) []farm.Action { return []farm.Action{{Data: reply(r.Data)}} })
+	answerT := farm.ScriptTCP(func(r farm.Received) []farm.Action { return []farm.Action{{Data: reply(r.Data)}} })
+	bc, err1 := f.UDP([4]byte{127, 0, 8, 9}, 0, answerU)
+	ud, err2 := f.UDP([4]byte{127, 0, 8, 10}, 0, answerU)
+	tc, err3 := f.TCP([4]byte{127, 0, 8, 11}, 0, answerT)
+	lp, err4 := farm.FreePort([4]byte{127, 0, 0, 1})
+	if err1 != nil || err2 != nil || err3 != nil || err4 != nil {
+		return nil
+	}
+	cfg := hook.ClientCfg{TimeoutMs: int(T / time.Millisecond), BindIP: [4]byte{127, 0, 0, 1}, Debug: c.Debug, HasBroadcast: true, BroadcastIP: [4]byte{127, 0, 8, 9}, BroadcastPort: bc.Addr.Port(),
+		HasListen: true, ListenIP: [4]byte{127, 0, 0, 1}, ListenPort: lp,
+		Devices: []hook.DeviceCfg{{Serial: 1002, HasAddr: true, IP: [4]byte{127, 0, 8, 10}, Port: ud.Addr.Port(), Protocol: "udp"}, {Serial: 1003, HasAddr: true, IP: [4]byte{127, 0, 8, 11}, Port: tc.Addr.Port(), Protocol: "tcp"}}}
+	u := hook.Real(cfg)
+	type op struct {
+		name string
+		f    func() (error, any)
+	}
+	invoke := func(serial uint32) func() (error, any) {
+		return func() (error, any) { r := api.Invoke(u, call(c.Op, serial)); return r.Err, r.Panic }
+	}
+	ops := []op{{"broadcast", invoke(1001)}, {"udp", invoke(1002)}, {"tcp", invoke(1003)},
+		{"discovery", func() (err error, p any) {
+			defer func() { p = recover() }()
+			_, err = u.GetDevices()
+			return
+		}},
+		{"listen", func() (err error, p any) {
+			defer func() { p = recover() }()
+			q := make(chan os.Signal, 1)
+			done := make(chan error, 1)
+			go func() {
+				defer func() {
+					if r := recover(); r != nil {
+						done <- fmt.Errorf("PANIC: %v", r)
+					}
+				}()
+				done <- u.Listen(nullListener{}, q)
+			}()
+			select {
+			case err = <-done:
+			case <-time.After(300 * time.Millisecond):
+				q <- os.Interrupt // (it did start: stop it again)
+				select {
+				case err = <-done:
+				case <-time.After(5 * time.Second):
+					err = fmt.Errorf("HANG")
+				}
+			}
+			return
+		}}}
+	before := farm.Sockets()
+	var lim syscall.Rlimit
+	if syscall.Getrlimit(syscall.RLIMIT_NOFILE, &lim) != nil {
+		return nil
+	}
+	entries, err := os.ReadDir("/proc/self/fd")
+	if err != nil {
+		return nil
+	}
+	low := lim
+	low.Cur = uint64(len(entries)) - 1 // (the directory handle itself was one of them: every descriptor number below the limit is taken)
+	run := func(stage string, expectError bool) *rp.Fail {
+		for _, o := range ops {
+			t0 := time.Now()
+			type out struct {
+				err error
+				p   any
+			}
+			ch := make(chan out, 1)
+			go func() { e, p := o.f(); ch <- out{e, p} }()
+			select {
+			case r := <-ch:
+				if r.p != nil || (r.err != nil && strings.HasPrefix(r.err.Error(), "PANIC")) {
+					return rp.Failf("no-descriptors/panic", "%s: %s (%s) panicked: %v %v", stage, c.Op, o.name, r.p, r.err)
+				}
+				if r.err != nil && r.err.Error() == "HANG" {
+					return rp.Failf("no-descriptors/hang", "%s: Listen did not return after the stop signal", stage)
+				}
+				if el := time.Since(t0); el > T+T/4+400*time.Millisecond && o.name != "listen" {
+					return rp.Failf("no-descriptors/overrun", "%s: %s (%s) returned after %v; the timeout is %v", stage, c.Op, o.name, el, T)
+				}
+				if expectError && r.err != nil {
+					ev.Class("no-descriptors/calls-that-failed-while-no-descriptor-could-be-opened", 1)
+				} else if expectError {
+					ev.Class("no-descriptors/calls-that-succeeded-all-the-same", 1)
+				}
+				if !expectError && r.err != nil && o.name != "listen" {
+					return rp.Failf("no-descriptors/does-not-recover", "%s: %s (%s) failed although descriptors are available again and the controller answers: %v", stage, c.Op, o.name, r.err)
+				}
+			case <-time.After(2*T + 8*time.Second):
+				return rp.Failf("no-descriptors/hang", "%s: %s (%s) has not returned (timeout %v)", stage, c.Op, o.name, T)
+			}
+		}
+		return nil
+	}
+	if syscall.Setrlimit(syscall.RLIMIT_NOFILE, &low) != nil {
+		return nil
+	}
+	fail := run("while no descriptor can be opened", true)
+	syscall.Setrlimit(syscall.RLIMIT_NOFILE, &lim)
+	if fail != nil {
+		return fail
+	}
+	if fail = run("after descriptors became available again", false); fail != nil {
+		return fail
+	}
+	for deadline := time.Now().Add(2 * time.Second); ; time.Sleep(5 * time.Millisecond) {
+		if s := farm.Sockets(); s <= before {
+			return nil
+		} else if time.Now().After(deadline) {
+			return rp.Failf("resources/socket-leak", "%d socket descriptors before the descriptor shortage, %d after it and a round of successful calls", before, s)
+		}
+	}
+}
+
+type nullListener struct{}
+
+func (nullListener) OnConnected()          {}
+func (nullListener) OnEvent(*types.Status) {}
+func (nullListener) OnError(error) bool    { return true }
+
 func runScenario(c scenario, scale int) *rp.Fail {
 	T := time.Duration(c.TimeoutMs*scale) * time.Millisecond
 	serial := uint32(405419896)
@@ -248,6 +380,8 @@ func runScenario(c scenario, scale int) *rp.Fail {
 		return runLateWrong(c, scale)
 	case "tcp-peer-holds-connection":
 		return runPeerHolds(c, scale)
+	case "no-descriptors":
+		return runNoDescriptors(c, scale)
 	}
 	u := hook.Real(cfg)
 	t0 := time.Now()
@@ -395,7 +529,7 @@ func runSendFails(c scenario, scale int) *rp.Fail {
 }
 
 func checkScenario(c scenario) *rp.Fail {
-	if c.Kind == "port-released" || c.Kind == "send-fails" || c.Kind == "late-wrong-reply" || c.Kind == "tcp-peer-holds-connection" {
+	if c.Kind == "port-released" || c.Kind == "send-fails" || c.Kind == "late-wrong-reply" || c.Kind == "tcp-peer-holds-connection" || c.Kind == "no-descriptors" {
 		ev.Case("scenario/"+c.Kind, true, fmt.Sprintf("%+v", c))
 	} else {
 		ev.Case(fmt.Sprintf("scenario/%s/reply-%s", c.Kind, map[bool]string{true: "in-time", false: "after-deadline"}[c.ReplyPct <= 80]), true, fmt.Sprintf("%+v", c))
@@ -433,6 +567,7 @@ func sweepScenarios(yield func(scenario) bool) {
 	}
 	cases = append(cases, scenario{Kind: "tcp-peer-holds-connection", Op: "GetTime", TimeoutMs: 4000, ReplyPct: 1}, scenario{Kind: "tcp-peer-holds-connection", Op: "OpenDoor", TimeoutMs: 4000, ReplyPct: 0, Debug: true},
 		scenario{Kind: "tcp-peer-holds-connection", Op: "DeleteCard", TimeoutMs: 4000, ReplyPct: 0, Path: "any"}, scenario{Kind: "tcp-peer-holds-connection", Op: "GetStatus", TimeoutMs: 4000, ReplyPct: 1, Path: "(empty)"})
+	cases = append(cases, scenario{Kind: "no-descriptors", Op: "GetTime", TimeoutMs: 300}, scenario{Kind: "no-descriptors", Op: "OpenDoor", TimeoutMs: 200, Debug: true})
 	if ev.Thorough() {
 		for i, path := range []string{"udp", "tcp", "broadcast"} {
 			cases = append(cases, scenario{Kind: "late-wrong-reply", Op: []string{"PutCard", "GetTime", "GetCardByID"}[i], Path: path, TimeoutMs: 1500, ReplyPct: 93})
